@@ -269,6 +269,46 @@ example : (run (init false) [.push 10 5, .push 20 3, .push 30 4, .remove 0, .rem
     [.handle 0, .handle 1, .handle 2, .ok, .ok, .elem (some ⟨1, 3, 20⟩), .ok,
       .elems [⟨2, 4, 30⟩]] := by decide
 
+instance (s : St) (n : Nat) : Decidable (HeapOn s n) :=
+  decidable_of_iff (∀ k, k < n → 0 < k → less s k ((k - 1) / 2) = false)
+    ⟨fun h k h0 hk => h k hk h0, fun h k hk h0 => h k h0 hk⟩
+instance (s : St) (i n : Nat) : Decidable (HoleDown s i n) :=
+  decidable_of_iff
+    ((∀ k, k < n → 0 < k → k ≠ i → (k - 1) / 2 ≠ i → less s k ((k - 1) / 2) = false) ∧
+     (∀ k, k < n → 0 < k → (k - 1) / 2 = i → 0 < i → less s k ((i - 1) / 2) = false))
+    ⟨fun h => ⟨fun k h0 hk => h.1 k hk h0, fun k h0 hk => h.2 k hk h0⟩,
+     fun h => ⟨fun k hk h0 => h.1 k h0 hk, fun k hk h0 => h.2 k h0 hk⟩⟩
+instance (s : St) (j n : Nat) : Decidable (HoleUp s j n) :=
+  decidable_of_iff
+    ((∀ k, k < n → 0 < k → k ≠ j → less s k ((k - 1) / 2) = false) ∧
+     (∀ k, k < n → 0 < k → (k - 1) / 2 = j → 0 < j → less s k ((j - 1) / 2) = false))
+    ⟨fun h => ⟨fun k h0 hk => h.1 k hk h0, fun k h0 hk => h.2 k hk h0⟩,
+     fun h => ⟨fun k hk h0 => h.1 k h0 hk, fun k hk h0 => h.2 k h0 hk⟩⟩
+
+/-- The state `heap.Remove(1)` meets after its `Swap(1, 6)` on the heap with keys `1 … 7`. -/
+def exampleHole : St :=
+  { desc := false,
+    arr := [⟨0, 1, 0⟩, ⟨6, 7, 0⟩, ⟨2, 3, 0⟩, ⟨3, 4, 0⟩, ⟨4, 5, 0⟩, ⟨5, 6, 0⟩, ⟨1, 2, 0⟩],
+    idx := [0, 6, 2, 3, 4, 5, 1] }
+
+-- The hypotheses of `down_spec` / `up_spec` are satisfiable by a state that is not a heap:
+-- a hole at slot 1 of the prefix of length 6 (with the grandparent property).
+example : HoleDown exampleHole 1 6 ∧ ¬ HeapOn exampleHole 6 ∧ IdxInv exampleHole := by decide
+
+-- `down` repairs it (the hole sinks to slot 3).
+unseal down in
+example : HeapOn (down exampleHole 1 6).1 6 ∧ (down exampleHole 1 6).2 = 3 := by decide
+
+/-- A hole that `up` has to repair: key 0 appended to the heap with keys `1 … 6`. -/
+def exampleHoleUp : St :=
+  { desc := false,
+    arr := [⟨0, 1, 0⟩, ⟨1, 2, 0⟩, ⟨2, 3, 0⟩, ⟨3, 4, 0⟩, ⟨4, 5, 0⟩, ⟨5, 6, 0⟩, ⟨6, 0, 0⟩],
+    idx := [0, 1, 2, 3, 4, 5, 6] }
+
+unseal up in
+example : HoleUp exampleHoleUp 6 7 ∧ ¬ HeapOrd exampleHoleUp ∧ Inv (up exampleHoleUp 6) ∧
+    ((up exampleHoleUp 6).at 0).key = 0 := by decide
+
 -- A state violating the heap order / the index invariant is rejected.
 example : ¬ Inv { desc := true, arr := [⟨1, 3, 20⟩, ⟨0, 5, 10⟩], idx := [1, 0] } := by decide
 example : ¬ Inv { desc := false, arr := [⟨1, 3, 20⟩, ⟨0, 5, 10⟩], idx := [0, 1] } := by decide
